@@ -321,6 +321,13 @@ def check(repo, rep, tier):
     # however it is spaced (targets.en spells the comma category ', ')
     from .c05 import r_delimiters
     r_delimiters(repo.module('depccg/cat.py'), rep, 'R17.3')
+    # ... and the ids of the inventory are looked up in a dict keyed by those parsed categories: two categories are the same
+    # key exactly when they are spelt the same (equality over all declared fields, hash over the same fields) -- an
+    # equality that lets NP[nb]/N stand for NP/N files the listed one under the other's column
+    from . import c13
+    cm = repo.module('depccg/cat.py')
+    c13.r_dataclass(cm, rep, 'R17.3')
+    c13.r_eq(cm, rep, 'R17.3')
     n = r_data(repo, rep)
     rep.floor('category strings checked', n, 24000)
     r_loading(repo, rep)
